@@ -18,7 +18,7 @@ RULE = ("Mode G: edge plog.from_b64(x.to_b64()) (applied twice) from EVERY valid
 ASSUMPTIONS = ["pickle/gzip/base64 of the standard library are trusted", "caches are cleared per case (C09 owns cache state)"]
 BOUNDS = {"quick": "abc explicit/generated, at explicit, fixed/ab, diamonds explicit, conn2/ab generated, conn1s/abc; all 1..2-rule configurators",
           "thorough": "quick + abt, abct, conn2/abc generated/explicit, closure/ab, 3-rule configurators"}
-QUICK = ["abc/explicit", "abc/generated", "at/explicit", "fixed/ab", "diamond/explicit", "conn2/ab/generated", "conn1s/abc/generated/a3", "atmostneg/explicit", "ab/varnamed"]
+QUICK = ["abc/explicit", "abc/generated", "at/explicit", "fixed/ab", "diamond/explicit", "conn2/ab/generated", "conn1s/abc/generated/a3", "atmostneg/explicit", "ab/varnamed", "wide/1"]
 THOROUGH = QUICK + ["abt/explicit", "abct/explicit", "conn2/abc/generated", "conn2/abc/explicit", "closure/ab/generated", "diamond/generated"]
 
 
@@ -57,7 +57,7 @@ def observe(obj, leaves):
     out.append(("errors", [str(e) for e in obj.errors()]))
     out.append(("variables", list(map(repr, obj.variables))))
     out.append(("flags", obj.is_tautology, obj.is_contradiction, tuple(map(int, obj.equation_bounds))))
-    for a in ref.assignments(leaves):
+    for a in ref.assignments_dom(leaves, 4):
         out.append(("eval", tuple(a.items()), tuple(map(int, obj.evaluate(a).as_tuple()))))
     a0 = {i: lo for i, (lo, hi) in leaves.items()}
     out.append(("evalp", sorted((repr(k), tuple(map(int, v.as_tuple()))) for k, v in obj.evaluate_propositions(a0).items())))
